@@ -361,6 +361,8 @@ type epoch struct {
 	all    bool
 	pref   []string // class prefixes havocked
 	except []string // with all: class prefixes that are preserved
+	pre    *State   // state before the havoc (calls only)
+	locals []Term   // objects allocated by this activation and not yet escaped: a callee cannot reach them
 }
 
 func (e epoch) matches(class string) bool {
@@ -408,7 +410,9 @@ type State struct {
 	trace   []string
 	noSide  bool // spec evaluation: do not add side assumptions
 	param   *paramHeap
-	pending Term // ghost: first error returned by a propagating callee and not yet returned
+	pending Term              // ghost: first error returned by a propagating callee and not yet returned
+	locals  []Term            // unescaped objects allocated by this activation
+	inside  map[string]string // local object stored inside another local object
 }
 
 type dirtyObj struct {
@@ -439,6 +443,11 @@ func (st *State) clone() *State {
 		n.invSeen[k] = v
 	}
 	n.trace = append([]string(nil), st.trace...)
+	n.locals = append([]Term(nil), st.locals...)
+	n.inside = make(map[string]string, len(st.inside))
+	for k, v := range st.inside {
+		n.inside[k] = v
+	}
 	return n
 }
 
@@ -469,8 +478,18 @@ func (x *Exec) havoc(st *State, all bool, prefixes []string) {
 }
 
 func (x *Exec) havocExcept(st *State, all bool, prefixes, except []string) {
+	x.havocCallee(st, all, prefixes, except, false)
+}
+
+// havocCallee: with byCall, objects this activation allocated and never let escape keep their contents.
+func (x *Exec) havocCallee(st *State, all bool, prefixes, except []string, byCall bool) {
 	x.nepoch++
 	e := epoch{id: x.nepoch, all: all, pref: prefixes, except: except}
+	if byCall && len(st.locals) > 0 {
+		e.pre = st.clone()
+		e.pre.noSide = true
+		e.locals = append([]Term(nil), st.locals...)
+	}
 	for k := range st.heap {
 		if e.matches(k) {
 			delete(st.heap, k)
@@ -579,7 +598,117 @@ func (x *Exec) newRef(st *State, hint string) Term {
 	name := quoteSym(fmt.Sprintf("alloc!%d", x.nsym))
 	st.defs = append(st.defs, fmt.Sprintf("(define-fun %s () Int (+ %s 1))", name, st.alloc.S))
 	st.alloc = Term{name, sInt}
+	st.locals = append(st.locals, r)
 	return r
+}
+
+func containsSym(text, sym string) bool {
+	for from := 0; ; {
+		i := strings.Index(text[from:], sym)
+		if i < 0 {
+			return false
+		}
+		i += from
+		end := i + len(sym)
+		okL := i == 0 || strings.IndexByte(" ()", text[i-1]) >= 0
+		okR := end == len(text) || strings.IndexByte(" ()", text[end]) >= 0
+		if okL && okR {
+			return true
+		}
+		from = i + 1
+	}
+}
+
+func valTerms(v Val, out *[]string) {
+	switch v := v.(type) {
+	case Sc:
+		*out = append(*out, v.T.S)
+	case Sl:
+		*out = append(*out, v.Base.S)
+	case St:
+		for _, f := range v.F {
+			valTerms(f, out)
+		}
+	case Tup:
+		for _, f := range v.E {
+			valTerms(f, out)
+		}
+	case Ptr:
+		for _, i := range v.Idx {
+			*out = append(*out, i.S)
+		}
+	case Clo:
+		for _, b := range v.Bind {
+			valTerms(b, out)
+		}
+	}
+}
+
+// escape: the objects referenced by v become reachable by other code.
+func (x *Exec) escape(st *State, v Val, defs bool) {
+	if len(st.locals) == 0 {
+		return
+	}
+	var ts []string
+	valTerms(v, &ts)
+	for _, t := range ts {
+		x.escapeTerm(st, t)
+	}
+}
+
+func (x *Exec) escapeTerm(st *State, text string) {
+	for i := 0; i < len(st.locals); i++ {
+		l := st.locals[i]
+		if containsSym(text, l.S) || x.defMentions(st, text, l.S) {
+			st.locals = append(st.locals[:i:i], st.locals[i+1:]...)
+			i--
+			// everything stored inside it escapes too
+			for child, parent := range st.inside {
+				if parent == l.S {
+					delete(st.inside, child)
+					x.escapeTerm(st, child)
+				}
+			}
+		}
+	}
+}
+
+// defMentions: text is a defined name whose definition mentions sym (one level is enough for boxed pointers).
+func (x *Exec) defMentions(st *State, text, sym string) bool {
+	if strings.ContainsAny(text, " (") {
+		return false
+	}
+	pfx := "(define-fun " + text + " "
+	for i := len(st.defs) - 1; i >= 0; i-- {
+		if strings.HasPrefix(st.defs[i], pfx) {
+			return containsSym(st.defs[i][len(pfx):], sym)
+		}
+	}
+	return false
+}
+
+// noteStore: a value is stored at location p: it escapes unless p lies in an unescaped local object.
+func (x *Exec) noteStore(st *State, p Ptr, v Val) {
+	if len(st.locals) == 0 {
+		return
+	}
+	if len(p.Idx) > 0 {
+		for _, l := range st.locals {
+			if p.Idx[0].S == l.S {
+				var ts []string
+				valTerms(v, &ts)
+				for _, t := range ts {
+					for _, c := range st.locals {
+						if c.S != l.S && (containsSym(t, c.S) || x.defMentions(st, t, c.S)) {
+							st.inside[c.S] = l.S
+						}
+					}
+				}
+				return
+			}
+		}
+	}
+	x.escape(st, v, true)
 }
 
 // asPtr views a pointer-typed value as a location.
